@@ -28,7 +28,7 @@ GroupValueWrite that was observed (or is the expected next observation). -/
 theorem update_writes_spaced {c : Cfg} {k : Bool} {tr : List Obs} {s : St} (h : Accepts c k tr s) :
     s.uw.Pairwise (fun later earlier => earlier + c.cool ≤ later) ∧
     ∀ t ∈ s.uw, ∃ p, Out.w p t ∈ s.expect ++ (outsOf tr).reverse := by
-  have hg := GInv_run c k tr s h
+  have hg := (GInv_run c k tr s h).1
   have hh := HInv_run c k tr s h
   refine ⟨hg.uwPair, fun t ht => ?_⟩
   obtain ⟨p, hp⟩ := hg.uwOut t ht
@@ -49,7 +49,7 @@ theorem last_update_reaches_bus {c : Cfg} {k : Bool} {tr : List Obs} {s : St} (h
     ∃ τ why, s.onBus = some (τ, why) ∧ ts ≤ τ ∧ τ ≤ ts + c.cool ∧
       (why = .sent → ∃ p, (track k tr).lastSet = some p ∧
         (Out.w p τ ∈ s.expect ++ (outsOf tr).reverse ∨ Out.r p τ ∈ s.expect ++ (outsOf tr).reverse)) := by
-  have hg := GInv_run c k tr s h
+  have hg := (GInv_run c k tr s h).1
   have hh := HInv_run c k tr s h
   have hts' : s.tSet = some ts := (congrArg Track.tSet hh.trk).trans hts
   have hok' : s.connOk = true := (congrArg Track.connOk hh.trk).trans hok
@@ -77,7 +77,7 @@ theorem last_update_reaches_bus_by_end {c : Cfg} {k : Bool} {tr : List Obs} {s :
     ∃ τ why, s.onBus = some (τ, why) ∧ ts ≤ τ ∧ τ ≤ ts + c.cool ∧
       (why = .sent → ∃ p, (track k tr).lastSet = some p ∧
         (Out.w p τ ∈ outsOf tr ∨ Out.r p τ ∈ outsOf tr)) := by
-  have hg := GInv_run c k _ s h
+  have hg := (GInv_run c k _ s h).1
   have hh := HInv_run c k _ s h
   have htrk : track k (tr ++ [.fin t]) = track k tr := by rw [track_snoc]; rfl
   have houts : outsOf (tr ++ [.fin t]) = outsOf tr := by rw [outsOf_snoc]; simp
@@ -85,52 +85,20 @@ theorem last_update_reaches_bus_by_end {c : Cfg} {k : Bool} {tr : List Obs} {s :
   have hok' : s.connOk = true := ((congrArg Track.connOk hh.trk).trans (by rw [htrk])).trans hok
   have hpac : s.pac = (track k tr).lastSet := (congrArg Track.lastSet hh.trk).trans (by rw [htrk])
   obtain ⟨s0, h0, hstep⟩ := run?_snoc_some (step? c) h
-  have hg0 := GInv_run c k tr s0 h0
+  have hg0 := (GInv_run c k tr s0 h0).1
   obtain ⟨hnow, hc⟩ := step_cases hstep
   cases hc with
   | consume x ho _ _ _ _ => cases ho
+  | consumeOpt x ho _ _ _ _ => cases ho
   | fire x s1 ho _ _ _ => cases ho
   | input s1 r _ _ hr _ => simp [inputReaction] at hr
   | sample s1 he ha hq hs =>
-    unfold GInv at hg0
     rw [he] at hg0
     obtain ⟨_, _, hcd, _⟩ := advance_Inv hg0 hnow ha
     have hexp : s.expect = [] := by
-      have := hg.expTime
       subst hs
-      -- the state after a sample carries the (empty) expectation of the advanced state
-      have h1 : Inv c (tick s1 t) [] := advance_tick_Inv hg0 hnow ha
-      cases hx : (tick s1 (Obs.fin t).time).expect with
-      | nil => rfl
-      | cons a l =>
-        exfalso
-        have hs1 : s1.expect = [] := by
-          have := advance_ind (c := c) (t := t) (incl := true) (fun s => s.expect = [])
-            (fun s tm hp hn _ he => by
-              cases tm with
-              | cd d =>
-                show (fireCd c (tick s d) d).1.expect = []
-                unfold fireCd
-                split
-                · unfold cooldownTarget
-                  split
-                  · exact hp
-                  · split
-                    · exact hp
-                    · exact (send_expect c (armCd c (tick s d) d) _ false true d).trans hp
-                · exact hp
-              | per d =>
-                show (firePer c (tick s d) d).1.expect = []
-                unfold firePer
-                split
-                · simp only
-                  rw [restartCd_expect]
-                  exact (send_expect c (perLoop c (tick s d) d) _ false false d).trans hp
-                · exact hp) _ s0 s1 he ha
-          exact this.1
-        have : (tick s1 (Obs.fin t).time).expect = s1.expect := rfl
-        rw [this, hs1] at hx
-        cases hx
+      show (tick s1 (Obs.fin t).time).expect = []
+      exact advance_expect he ha
     cases hob : s.onBus with
     | none =>
       obtain ⟨_, d, hd, hdl⟩ := hg.pending ts hts' hok' hob
@@ -164,6 +132,7 @@ theorem read_answered_with_value_set {c : Cfg} {k : Bool} {pre : List Obs} {s0 s
   obtain ⟨_, hc⟩ := step_cases hstep
   cases hc with
   | consume x ho _ _ _ _ => cases ho
+  | consumeOpt x ho _ _ _ _ => cases ho
   | fire x s1 ho _ _ _ => cases ho
   | sample s1 _ _ hq _ => simp [sampleOk] at hq
   | input s1 r he ha hr hs =>
@@ -186,6 +155,7 @@ theorem read_answered_with_bus_value {c : Cfg} {k : Bool} {pre : List Obs} {s0 s
   obtain ⟨_, hc⟩ := step_cases hstep
   cases hc with
   | consume x ho _ _ _ _ => cases ho
+  | consumeOpt x ho _ _ _ _ => cases ho
   | fire x s1 ho _ _ _ => cases ho
   | sample s1 _ _ hq _ => simp [sampleOk] at hq
   | input s1 r he ha hr hs =>
@@ -241,6 +211,7 @@ theorem skip_suppresses_only_equal {c : Cfg} {k : Bool} {pre : List Obs} {s0 s :
   obtain ⟨_, hc⟩ := step_cases hstep
   cases hc with
   | consume x ho _ _ _ _ => cases ho
+  | consumeOpt x ho _ _ _ _ => cases ho
   | fire x s1 ho _ _ _ => cases ho
   | sample s1 _ _ hq _ => simp [sampleOk] at hq
   | input s1 r he ha hr hs =>
@@ -275,6 +246,27 @@ example : accepts ⟨0, 0, true⟩ true
     [.set 1000 true 0, .out (.w 1000 0), .bus 3148 100000, .set 1000 true 200000, .q (some 3148) 200000,
      .set 3148 true 300000, .out (.w 3148 300000), .fin 400000] = true := by decide
 
+
+/-- Cooldown 5 s, periodic 4 s, started disconnected: `set` at 0 starts the cooldown task (due at 5 s, the write fails),
+the connection comes up at 1 s and restarts the periodic task (due at 5 s): both tasks are due at the same instant.
+Whichever runs first, the value reaches the bus at 5 s — with one write (periodic task first: it restarts the cooldown
+task) or two identical ones (cooldown task first); the monitor accepts both and nothing else. -/
+example : accepts ⟨5000000, 4000000, true⟩ false
+    [.set 1000 false 0, .conn true 1000000, .out (.w 1000 5000000), .out (.w 1000 5000000), .q (some 1000) 5000000,
+     .out (.w 1000 9000000), .fin 9500000] = true := by decide
+example : accepts ⟨5000000, 4000000, true⟩ false
+    [.set 1000 false 0, .conn true 1000000, .out (.w 1000 5000000), .q (some 1000) 5000000,
+     .out (.w 1000 9000000), .fin 9500000] = true := by decide
+example : accepts ⟨5000000, 4000000, true⟩ false
+    [.set 1000 false 0, .conn true 1000000, .out (.w 1000 5000000), .out (.w 1000 5000000), .out (.w 1000 5000000)]
+    = false := by decide
+/-- Periodic shorter than the cooldown (10 s / 4 s): 1000 at 0, 3148 at 1 s is deferred; the periodic task at 4 s sends
+the DEFERRED value (not the stale bus value) and restarts the cooldown; a trace that re-sends 1000 instead is rejected. -/
+example : accepts ⟨10000000, 4000000, true⟩ true
+    [.set 1000 false 0, .out (.w 1000 0), .set 3148 false 1000000, .out (.w 3148 4000000), .q (some 3148) 4000000,
+     .out (.w 3148 8000000), .fin 11000000] = true := by decide
+example : accepts ⟨10000000, 4000000, true⟩ true
+    [.set 1000 false 0, .out (.w 1000 0), .set 3148 false 1000000, .out (.w 1000 4000000)] = false := by decide
 
 /-- The hypotheses of (A) and (B) are met by the first trace above: the last update (3148 at 0.5 s) was taken, the
 connection stayed up, the clock passed 1.5 s; the value reached the bus at 1.0 s because the device sent it, and the two
